@@ -22,7 +22,7 @@ const (
 	OpAnd
 	OpOr
 	OpXor
-	OpShl  // Go semantics handled by caller (shift amount same width)
+	OpShl // Go semantics handled by caller (shift amount same width)
 	OpLShr
 	OpAShr
 	OpNot // bitwise
@@ -50,12 +50,12 @@ type Term struct {
 	val  uint64
 	name string
 	args []*Term
-	id   int32 // SMT definition id within the current solver scope (0 = none)
-	gen  int32 // generation of id
-	h    uint64 // structural hash (0 = not computed)
+	id   int32   // SMT definition id within the current solver scope (0 = none)
+	gen  int32   // generation of id
+	h    uint64  // structural hash (0 = not computed)
 	vs   []*Term // distinct variables (computed lazily; nil = not computed; capped at 3)
 	vsOK bool
-	tt   *[4]uint64 // truth table over the single byte variable (byte conditions only)
+	tt   *[4]uint64   // truth table over the single byte variable (byte conditions only)
 	vec  *[256]uint64 // value for each value of the single byte variable
 }
 
